@@ -309,7 +309,13 @@ func (f *Func) graph(g *graph.Graph, root graph.Vertex, includeOutput bool) grap
 				Subtype: f.Subtype,
 			}), vertex)
 		}
-		for _, f := range f.output.typedValues {
+		// Every type-only output is its own vertex: two outputs of the same
+		// type are distinct when their subtypes differ.
+		for _, f := range f.output.values {
+			if f.Kind() != ValueTyped {
+				continue
+			}
+
 			g.AddEdgeWeighted(g.Add(&typedOutputVertex{
 				Type:    f.Type,
 				Subtype: f.Subtype,
@@ -338,8 +344,8 @@ func (f *Func) outputValues(r Result, vs []graph.Vertex, state *callState) {
 			v.Value = structVal.Field(f.output.namedValues[v.Name].index)
 
 		case *typedOutputVertex:
-			// Get our field with the same name
-			field := f.output.typedValues[v.Type]
+			// Get the type-only field with the same type and subtype
+			field := f.output.typedValue(v.Type, v.Subtype)
 			v.Value = structVal.Field(field.index)
 		}
 	}
